@@ -2,6 +2,7 @@
 //! one protocol line per case (input + implementation observation).
 mod corpus;
 mod gen;
+mod image;
 mod rewrite;
 mod rng;
 mod tok;
@@ -159,6 +160,11 @@ fn main() {
             let seed: u64 = args[2].parse().unwrap();
             let n: usize = args[3].parse().unwrap();
             rewrite::run(seed, n, &mut out);
+        }
+        "image" => {
+            let seed: u64 = args[3].parse().unwrap();
+            let n: usize = args[4].parse().unwrap();
+            image::run(&args[2], seed, n, &mut out);
         }
         "corpus" => {
             let seed: u64 = args[2].parse().unwrap();
